@@ -148,7 +148,7 @@ def fdefD (NF : List String) : FieldDecl → List String
   | .oneOf fs => "fast:multi-wrapper" :: fdefL NF fs
   | .allOf fs => "fast:multi-wrapper" :: fdefL NF fs
   | .notF fs => "fast:multi-wrapper" :: fdefL NF fs
-  | .anyOf fs => (if fsafeOpt NF fs then [] else ["fast:multi-wrapper"]) ++ fdefL NF fs
+  | .anyOf fs => (if fs.length == 2 && fs.any isNoneF then [] else ["fast:multi-wrapper"]) ++ fdefL NF fs
   | .seqOf _ item _ => fdefD NF item
   | .setOf _ item _ => fdefD NF item
   | .tuplePos items _ => fdefL NF items
